@@ -1,8 +1,9 @@
 SPECIFICATION Spec
-CONSTANTS Times <- McTimesS
+CONSTANTS Times <- McTimesV
  ExpChoices <- McExp
  OfferMenu <- McMenuV
  MaxBlocks = 4
+ MaxBoots = 1
  DupCheck = TRUE
  PayloadIdentity = TRUE
 INVARIANTS AtMostOnce InWindow ForkFree
